@@ -71,6 +71,7 @@ def run(ctx):
     for rid, cl in failed.items():
         for clause in sorted(cl):
             ctx.violation(rid, clause, detail={"failed": sorted(cl)}, replay=by_id[rid], sig={"scope": rid.split(":")[0]})
+    drift = {k: v for k, v in drift.items() if k not in failed}
     if drift:
         print("MODEL-DRIFT: %d records satisfy the relations but differ from the L2 transcription, e.g. %s" % (len(drift), sorted(drift.items())[:2]))
     ctx.note("model_drift_records", len(drift))
